@@ -107,8 +107,51 @@ def in_range(us):
     return 0 <= us <= MAX_US
 
 
+class NullTz(datetime.tzinfo):
+    """a tzinfo that does not know its offset: utcoffset() is None, so the datetime is NAIVE by Python's definition
+    (datetime docs: aware iff tzinfo is not None and tzinfo.utcoffset(d) is not None)"""
+
+    def utcoffset(self, dt):
+        return None
+
+    def dst(self, dt):
+        return None
+
+    def tzname(self, dt):
+        return None
+
+    def __repr__(self):
+        return 'NullTz()'
+
+
+class CallbackTz(datetime.tzinfo):
+    """a caller-written fixed-offset tzinfo (not datetime.timezone) whose utcoffset() calls back into the library
+    (reads the clock) - re-entrancy must not change any answer"""
+
+    def __init__(self, off):
+        self.off = off
+
+    def utcoffset(self, dt):
+        from oslo_utils import timeutils
+        timeutils.utcnow()
+        return TD(microseconds=self.off)
+
+    def dst(self, dt):
+        return None
+
+    def tzname(self, dt):
+        return 'CB'
+
+    def __repr__(self):
+        return 'CallbackTz(%d us)' % self.off
+
+
 def mk_tz(tz):
     k = tz[0]
+    if k == 'nulltz':
+        return NullTz()
+    if k == 'callback':
+        return CallbackTz(tz[1])
     if k == 'utc':
         return UTC
     if k == 'fixed':
@@ -148,9 +191,9 @@ def model_dt(spec, iso=False):
 def spec_utc(spec):
     """the UTC instant the datetime denotes, known by construction where possible"""
     tz = spec.get('tz')
-    if tz is None or tz[0] == 'utc':
+    if tz is None or tz[0] in ('utc', 'nulltz'):      # nulltz: naive by definition, read as UTC like any naive one
         return spec['us']
-    if tz[0] in ('fixed', 'named'):
+    if tz[0] in ('fixed', 'named', 'callback'):
         return spec['us'] - tz[1]
     if spec.get('utc') is not None:
         return spec['utc']
@@ -267,7 +310,9 @@ def gen_repr(ctx, u, allow_iso, exact=False):
     for _ in range(20):
         k = rng.randrange(20)
         spec = None
-        if k < 4 and in_range(u):
+        if k < 1 and in_range(u):
+            spec, tag = {'us': u, 'tz': ['nulltz']}, 'naive-with-tzinfo-whose-utcoffset-is-None'
+        elif k < 4 and in_range(u):
             spec, tag = {'us': u, 'tz': None}, 'naive'
         elif k < 6 and in_range(u):
             spec, tag = {'us': u, 'tz': ['utc']}, 'utc'
@@ -281,6 +326,8 @@ def gen_repr(ctx, u, allow_iso, exact=False):
                 o = rng.randrange(-1439, hi + 1) * 60 * 10 ** 6 if hi >= -1439 else -rng.randrange(u - MAX_US, DAY_US)
             if in_range(u + o):
                 spec, tag = {'us': u + o, 'tz': ['fixed', o]}, 'fixed'
+                if rng.random() < 0.08:
+                    spec, tag = {'us': u + o, 'tz': ['callback', o]}, 'custom-tzinfo-calling-back'
         elif k < 14:
             o = rng.choice([1, -1, 10 ** 6, -10 ** 6 - 5, DAY_US - 1, -DAY_US + 1, rng.randrange(-DAY_US + 1, DAY_US)])
             if in_range(u + o):
@@ -693,69 +740,64 @@ def gen_ptz_seq(ctx):
 
 
 def gen_fixture_mix(ctx):
-    """One override cell, two ways in: TimeFixture objects (set up, advanced, cleaned up, set up again, nested)
-    and the timeutils functions (set_time_override, advance_time_*, clear_time_override), interleaved at random,
-    with reads in between; the expected clock is the single cell of the property."""
+    """One override cell, two ways in: TimeFixture objects - the class itself or a subclass overriding one public
+    method or none - (set up, advanced, cleaned up, set up again, nested) and the timeutils functions
+    (set_time_override, advance_time_*, clear_time_override), interleaved at random, with reads in between; the
+    expected clock is the single cell of the property."""
     rng = ctx.rng
-    fixtures = [gen_instant(rng) if rng.random() < 0.3 else rng.randrange(730000 * DAY_US, 745000 * DAY_US)
-                for _ in range(rng.randrange(1, 4))]
-    up, ops, clock = [], [], None
-    init = None
+    fixtures = []
+    for _ in range(rng.randrange(1, 4)):
+        t = gen_instant(rng) if rng.random() < 0.3 else rng.randrange(730000 * DAY_US, 745000 * DAY_US)
+        if rng.random() < 0.5:
+            kind = rng.choice(sorted(FX_KINDS))
+            if kind == 'Up_plus_day' and not in_range(t + DAY_US):
+                kind = 'sub'
+            fixtures.append([t, kind])
+            ctx.count('fixture-mix/subclass/' + kind)
+        else:
+            fixtures.append(t)
+    case = {'kind': 'seq', 'init': None, 'ops': [], 'fixture': False, 'fixtures': fixtures}
+    up, ops = [], case['ops']
     if rng.random() < 0.3:
-        init = clock = gen_instant(rng)
+        case['init'] = gen_instant(rng)
+
+    def clock():
+        cs = spec_clocks(dict(case, ops=ops + [['now', 0]]))
+        return cs[-1]
 
     def adv_amount():
-        return rng.choice([1, -1, 10 ** 6, 60 * 10 ** 6, -3600 * 10 ** 6, rng.randrange(-10 ** 9, 10 ** 9),
-                           rng.randrange(-10 ** 13, 10 ** 13)])
+        return rng.choice([1, -1, 10 ** 6, 1500000, -2750001, 60 * 10 ** 6, -3600 * 10 ** 6,
+                           rng.randrange(-10 ** 9, 10 ** 9), rng.randrange(-10 ** 13, 10 ** 13)])
     for _ in range(rng.randrange(4, 16)):
         k = rng.randrange(20)
         down = [i for i in range(len(fixtures)) if i not in up]
         if k < 3 and down:
             i = rng.choice(down)
             up.append(i)
-            clock = fixtures[i]
             ops.append(['fxup', i])
         elif k < 5 and up:
             i = rng.choice(up)
             up.remove(i)
-            clock = None
             ops.append(['fxdown', i])
-        elif k < 8:
+        elif k < 9:
             i = rng.choice(up) if up and rng.random() < 0.85 else rng.randrange(len(fixtures))
-            if rng.random() < 0.5:
-                d = adv_amount()
-                ops.append(['fxadvd', i, d])
-            else:
-                s = gen_secs(ctx)
-                d = td_of(s)
-                ops.append(['fxadvs', i, s])
-            if clock is not None and d is not None and in_range(clock + d):
-                clock += d
+            ops.append(['fxadvd', i, adv_amount()] if rng.random() < 0.5 else ['fxadvs', i, gen_secs(ctx)])
         elif k < 11:
-            if rng.random() < 0.5:
-                d = adv_amount()
-                ops.append(['advd', d])
-            else:
-                s = gen_secs(ctx)
-                d = td_of(s)
-                ops.append(['advs', s])
-            if clock is not None and d is not None and in_range(clock + d):
-                clock += d
+            ops.append(['advd', adv_amount()] if rng.random() < 0.5 else ['advs', gen_secs(ctx)])
         elif k < 12:
-            clock = gen_instant(rng)
-            ops.append(['set', clock])
+            ops.append(['set', gen_instant(rng)])
         elif k < 13:
-            clock = None
             ops.append(['clear'])
         elif k < 15:
             ops.append(['now', rng.randrange(2)])
         elif k < 17:
             ops.append(['ts', rng.randrange(2)])
         else:
-            ops.append(gen_cmp(ctx, clock if clock is not None else gen_instant(rng)))
+            c = clock()
+            ops.append(gen_cmp(ctx, c if c is not None else gen_instant(rng)))
     ops.append(['now', 0])
     ctx.count('fixture-mix/%d-fixtures' % len(fixtures))
-    return {'kind': 'seq', 'init': init, 'ops': ops, 'fixture': False, 'fixtures': fixtures}
+    return case
 
 
 def gen_case(ctx):
@@ -866,6 +908,25 @@ def corpus():
              ['now', 0], ['fxadvd', 0, 1], ['set', t0 + 100], ['fxadvd', 1, 13], ['now', 0], ['fxdown', 0], ['now', 0]],
             [['set', t0], ['fxadvs', 1, ['int', 2]], ['advd', 3], ['fxadvd', 0, 4], ['now', 0]]):
         out.append({'kind': 'seq', 'init': None, 'fixture': False, 'fixtures': [t0, t1], 'ops': ops})
+    for kind in sorted(FX_KINDS):
+        out.append({'kind': 'seq', 'init': None, 'fixture': False, 'fixtures': [[t0, kind]],
+                    'ops': [['fxup', 0], ['now', 0], ['fxadvs', 0, ['float', (2.5).hex()]], ['now', 0],
+                            ['fxadvd', 0, 1750000], ['now', 0], ['fxadvs', 0, ['int', -3]], ['ts', 1],
+                            ['advs', ['int', 1]], ['fxadvd', 0, -250000], ['now', 0], ['fxdown', 0], ['now', 0],
+                            ['fxup', 0], ['now', 0]]})
+    for tz in (['nulltz'], ['callback', 19800 * 10 ** 6]):
+        o = tz[1] if tz[0] == 'callback' else 0
+        for ptz in (None, 'Asia/Tokyo', 'America/New_York', 'Pacific/Kiritimati'):
+            spec = {'us': t0 + o, 'tz': tz}
+            c = {'kind': 'seq', 'init': t0 + 10 ** 6, 'fixture': False,
+                 'ops': [['norm', spec], ['older', spec, ['int', 1], 0], ['older', spec, ['float', (0.999999).hex()], 0],
+                         ['newer', spec, ['int', -1], 0], ['newer', spec, ['float', (-1.000001).hex()], 0],
+                         ['soon', spec, ['int', -1], 0], ['soon', spec, ['float', (-1.000001).hex()], 0],
+                         ['older', spec, ['int', 0], 1]]}
+            if ptz:
+                c['ptz'] = ptz
+            out.append(c)
+            out.append(dict({'kind': 'norm', 'dt': spec}, **({'ptz': ptz} if ptz else {})))
     for ptz in PROCESS_TZS:
         for y, mo in ((2020, 7), (2020, 1), (1969, 12), (1, 1), (9999, 12)):
             c = us_of(DT(y, mo, 1, 12, 0, 0, 250000))
@@ -950,9 +1011,9 @@ class SeqRunner:
         # be set up, cleaned up and set up again, several may be up at once
         self.fxs = []
         self.up = []
-        if fixtures:
-            from oslo_utils import fixture as fixture_mod
-            self.fxs = [fixture_mod.TimeFixture(dt_of(t)) for t in fixtures]
+        for e in fixtures:
+            t0, kind = fx_entry(e)
+            self.fxs.append(fixture_class(kind)(dt_of(t0)))
 
     def set(self, us):
         if self.use_fixture:
@@ -1020,7 +1081,7 @@ class SeqRunner:
             return fmt_num(r) if isinstance(r, bool) else 'other:' + repr(r)
         if k == 'norm':
             r = t.normalize_time(build_dt(op[1]))
-            if not isinstance(r, DT) or r.tzinfo is not None:
+            if not isinstance(r, DT) or r.utcoffset() is not None:       # naive = no offset (Python's definition)
                 return 'other:' + repr(r)
             return 'dt:%d' % us_of(r)
         raise ValueError(op)
@@ -1055,6 +1116,103 @@ class SeqRunner:
 
 
 FX_OPS = ('fxup', 'fxdown', 'fxadvd', 'fxadvs')
+AMBIENT_NAME = os.environ.get('VERIF_AMBIENT') or None      # the ambient-sweep configuration this interpreter runs under
+
+# A fixture of a case is an instant t (the base class TimeFixture(t)) or [t, kind]: a SUBCLASS of TimeFixture that
+# overrides exactly one public method (or none).  Every method it does not override must behave as on the base
+# class - i.e. act on the one override cell as the property says; the overridden one does what the subclass says.
+FX_KINDS = {
+    'sub': 'class Sub(TimeFixture): pass',
+    'D_noop': 'advance_time_delta overridden: does nothing',
+    'D_trunc': 'advance_time_delta overridden: drops the sub-second part, then super()',
+    'D_via_seconds': 'advance_time_delta overridden: self.advance_time_seconds(td.total_seconds())',
+    'S_noop': 'advance_time_seconds overridden: does nothing',
+    'S_via_delta': 'advance_time_seconds overridden: self.advance_time_delta(timedelta(seconds=s))',
+    'Up_plus_day': 'setUp overridden: super().setUp() then timeutils.advance_time_delta(1 day)',
+}
+_FX_CLASSES = {}
+
+
+def fx_entry(e):
+    return (e, 'base') if isinstance(e, int) else (e[0], e[1])
+
+
+def fixture_class(kind):
+    from oslo_utils import fixture as fm
+    from oslo_utils import timeutils
+    key = (id(fm), kind)
+    if key in _FX_CLASSES:
+        return _FX_CLASSES[key]
+    base = fm.TimeFixture
+    if kind == 'base':
+        cls = base
+    elif kind == 'sub':
+        class cls(base):
+            pass
+    elif kind == 'D_noop':
+        class cls(base):
+            def advance_time_delta(self, timedelta):
+                return None
+    elif kind == 'D_trunc':
+        class cls(base):
+            def advance_time_delta(self, timedelta):
+                return super().advance_time_delta(timedelta - timedelta % TD(seconds=1))
+    elif kind == 'D_via_seconds':
+        class cls(base):
+            def advance_time_delta(self, timedelta):
+                return self.advance_time_seconds(timedelta.total_seconds())
+    elif kind == 'S_noop':
+        class cls(base):
+            def advance_time_seconds(self, seconds):
+                return None
+    elif kind == 'S_via_delta':
+        class cls(base):
+            def advance_time_seconds(self, seconds):
+                return self.advance_time_delta(TD(seconds=seconds))
+    elif kind == 'Up_plus_day':
+        class cls(base):
+            def setUp(self):
+                super().setUp()
+                timeutils.advance_time_delta(TD(days=1))
+    else:
+        raise ValueError(kind)
+    _FX_CLASSES[key] = cls
+    return cls
+
+
+def prims(op, fixtures=()):
+    """the cell operations a call amounts to: [(kind, argument)] with kind in set / clear / advd / advs.
+    For a fixture call that is what the base class does, unless this subclass overrides that very method."""
+    k = op[0]
+    if k not in FX_OPS:
+        return [(k, op[1] if len(op) > 1 else None)] if k in ('set', 'clear', 'advd', 'advs') else None
+    t, kind = fx_entry(fixtures[op[1]])
+    if k == 'fxup':
+        return [('set', t)] + ([('advd', DAY_US)] if kind == 'Up_plus_day' else [])
+    if k == 'fxdown':
+        return [('clear', None)]
+    if k == 'fxadvd':
+        d = op[2]
+        if kind == 'D_noop':
+            return []
+        if kind == 'D_trunc':
+            return [('advd', d - d % 10 ** 6)]
+        # D_via_seconds: total_seconds() and back is exact below 2^52 us (the generator stays far below)
+        return [('advd', d)]
+    if kind == 'S_noop':
+        return []
+    return [('advs', op[2])]          # inherited advance_time_seconds, and S_via_delta, move by timedelta(seconds=s)
+
+
+def model_ops(op, fixtures=()):
+    """the model's ops for one call (fixture entry points use the fixture aliases of the cell ops)"""
+    if op[0] not in FX_OPS:
+        return [op_str(op, fixtures)]
+    out = []
+    for k, a in prims(op, fixtures):
+        out.append({'set': 'fxup %d', 'advd': 'fxadvd %d'}[k] % a if k in ('set', 'advd') else
+                   'fxdown' if k == 'clear' else 'fxadvs ' + sec_str(a))
+    return out
 
 
 def canon_case(case):
@@ -1142,7 +1300,7 @@ def run_impl_here(case):
         except Exception as e:
             return ['err:' + type(e).__name__]
         o = off_us(r)
-        return ['ok:n:%d' % us_of(r) if r.tzinfo is None else 'ok:a:%d:%s' % (us_of(r), o)]
+        return ['ok:n:%d' % us_of(r) if o is None else 'ok:a:%d:%s' % (us_of(r), o)]
     if kind == 'secs':
         try:
             return ['ok:%d' % (TD(seconds=sec_value(case['sec'])) // ONE_US)]
@@ -1248,7 +1406,7 @@ def model_requests(case):
     if kind == 'seq':
         fxt = case.get('fixtures') or ()
         return [req('run', 'N' if case['init'] is None else case['init'],
-                    ';'.join(op_str(op, fxt) for op in case['ops'] if op[0] != 'norm') or '-')] + \
+                    ';'.join(m for op in case['ops'] if op[0] != 'norm' for m in model_ops(op, fxt)) or '-')] + \
                [req('norm', model_dt(op[1])) for op in case['ops'] if op[0] == 'norm']
     if kind == 'norm':
         return [req('norm', model_dt(case['dt']))]
@@ -1289,7 +1447,8 @@ def compare(case, impl, replies):
         parts = replies[0].split('\t')
         if len(parts) != 2:
             return False, replies
-        run_outs = iter(parts[0].split(';') if any(op[0] != 'norm' for op in case['ops']) else [])
+        fxt = case.get('fixtures') or ()
+        run_outs = iter(parts[0].split(';') if parts[0] else [])
         norm_outs = iter(replies[1:])
         mo = []
         for op in case['ops']:
@@ -1297,8 +1456,19 @@ def compare(case, impl, replies):
                 r = next(norm_outs, '?')
                 mo.append('dt:' + r[5:] if r.startswith('ok:n:') else (r[4:] if r.startswith('err:') else r))
             else:
-                mo.append(next(run_outs, '?'))
+                # one call may amount to several cell ops (a subclass hook) or none: the call returns None unless
+                # one of them raises
+                outs = [next(run_outs, '?') for _ in model_ops(op, fxt)]
+                mo.append(next((o for o in outs if o != 'none'), 'none'))
         io = impl[0].split(';') if case['ops'] else []
+        if AMBIENT_NAME == 'O':
+            # python -O compiles out `assert utcnow.override_time is not None` in advance_time_delta: advancing
+            # without an override then fails a few lines later with TypeError (None is not iterable / None += td)
+            # instead of the AssertionError the model names.  Only this one misuse error is identified, only here.
+            for j, op in enumerate(case['ops']):
+                if op[0] in ('advd', 'advs', 'fxadvd', 'fxadvs') and j < len(io) and j < len(mo) and \
+                        mo[j] == 'AssertionError' and io[j] == 'TypeError':
+                    mo[j] = io[j] = 'err:no-override'
         ok = len(mo) == len(io) and all(same_out(a, b) for a, b in zip(io, mo)) and parts[1] == impl[1]
         return ok, [';'.join(mo), parts[1]]
     if kind == 'marshall':
@@ -1398,20 +1568,24 @@ def oracle_seq(case):
             continue
         # there is one override cell: a TimeFixture's setUp installs its constructor's instant, its clean-up
         # clears, its advance_* move the cell by the given amount - whoever moved it before
-        if k == 'set':
-            clock, want, unknown = op[1], 'none', False
-        elif k == 'fxup':
-            clock, want, unknown = fxt[op[1]], 'none', False
-        elif k in ('clear', 'fxdown'):
-            clock, want, unknown = None, 'none', False
-        elif k in ('advd', 'advs', 'fxadvd', 'fxadvs'):
-            d = op[-1] if k in ('advd', 'fxadvd') else td_of(op[-1])
-            if clock is None:
-                want, unknown = None, True
-            elif d is None or not in_range(clock + d):
-                want = 'OverflowError'                 # cannot be represented: must fail loudly, clock unmoved
-            else:
-                clock, want = clock + d, 'none'
+        # (a method a subclass does not override must do what the base class does: prims())
+        pr = prims(op, fxt)
+        if pr is not None:
+            want = 'none'
+            for pk, a in pr:
+                if pk == 'set':
+                    clock, unknown = a, False
+                elif pk == 'clear':
+                    clock, unknown = None, False
+                else:
+                    d = a if pk == 'advd' else td_of(a)
+                    if clock is None:
+                        want, unknown = None, True
+                        break
+                    if d is None or not in_range(clock + d):
+                        want = 'OverflowError'         # cannot be represented: must fail loudly, clock unmoved
+                        break
+                    clock += d
         elif k == 'norm':          # whatever was called before, whatever the clock says
             u = spec_utc(op[1])
             want = 'dt:%d' % u if in_range(u) else 'OverflowError'
@@ -1477,13 +1651,13 @@ def oracle_norm(case):
         return None if not in_range(u) else 'normalize_time(%r) raised OverflowError but denotes a representable instant' % d
     except Exception as e:
         return 'normalize_time(%r) raised %s' % (d, type(e).__name__)
-    if r.tzinfo is not None:
+    if r.utcoffset() is not None:
         return 'normalize_time(%r) returned an aware datetime %r' % (d, r)
-    if d.tzinfo is None and r is not d and r != d:
+    if d.utcoffset() is None and r is not d and dt_fields(r) != dt_fields(d):
         return 'normalize_time changed a naive datetime: %r -> %r' % (d, r)
     if us_of(r) != u:
         return 'normalize_time(%r) = %r, but it denotes the UTC instant %r' % (d, r, dt_of(u) if in_range(u) else u)
-    if d.tzinfo is not None and in_range(u):
+    if d.utcoffset() is not None and in_range(u):
         # cross-check with the runtime's own aware arithmetic
         if d.astimezone(UTC).replace(tzinfo=None) != r:
             return 'normalize_time(%r) = %r differs from astimezone(UTC)' % (d, r)
@@ -1681,12 +1855,15 @@ def fresh_oracle(case):
     import sys
     if budget_left() <= 0:
         raise BudgetUsedUp()
-    code = ('import sys, json; sys.path.insert(0, %r); import common; from props import C12; '
-            'print("\\n@@" + json.dumps(C12.oracle(json.loads(sys.stdin.read()))))'
-            % os.path.dirname(os.path.dirname(os.path.abspath(__file__))))
+    # same ambient configuration as this interpreter (flags, environment, pre/post-import set-up): ambient.py
+    import ambient
+    harness_dir = os.path.dirname(os.path.dirname(os.path.abspath(__file__)))
+    code = ('import sys, json\nsys.path.insert(0, %r)\ncase = json.loads(sys.stdin.read())\n' % harness_dir
+            + ambient.setup_snippet('import common\nfrom props import C12')
+            + 'print("\\n@@" + json.dumps(C12.oracle(case)))\n')
     env = dict(os.environ, PYTHONDONTWRITEBYTECODE='1')
     try:
-        p = subprocess.run([sys.executable, '-c', code], input=common.json.dumps(case).encode(), env=env,
+        p = subprocess.run(ambient.fresh_interpreter_argv() + ['-c', code], input=common.json.dumps(case).encode(), env=env,
                            stdout=subprocess.PIPE, stderr=subprocess.PIPE, timeout=max(2, min(60, budget_left())))
         line = [l for l in p.stdout.decode('utf-8', 'replace').splitlines() if l.startswith('@@')][-1]
         return common.json.loads(line[2:])
@@ -1700,16 +1877,17 @@ def spec_clocks(case):
     for op in case['ops']:
         out.append(clock)
         k = op[0]
-        if k == 'set':
-            clock = op[1]
-        elif k == 'fxup':
-            clock = (case.get('fixtures') or ())[op[1]]
-        elif k in ('clear', 'fxdown'):
-            clock = None
-        elif k in ('advd', 'advs', 'fxadvd', 'fxadvs') and clock is not None:
-            d = op[-1] if k in ('advd', 'fxadvd') else td_of(op[-1])
-            if d is not None and in_range(clock + d):
-                clock += d
+        for pk, a in prims(op, case.get('fixtures') or ()) or []:
+            if pk == 'set':
+                clock = a
+            elif pk == 'clear':
+                clock = None
+            elif clock is not None:
+                d = a if pk == 'advd' else td_of(a)
+                if d is not None and in_range(clock + d):
+                    clock += d
+                else:
+                    break
     return out
 
 
@@ -1785,7 +1963,7 @@ def failure_kind(case, why):
     """what failed, independent of how far the case was shrunk (used to report each kind once)"""
     last = case['cases'][-1] if case['kind'] == 'multi' else case
     if last['kind'] == 'seq':
-        m = re.search(r'call \d+ \((\w+)\(', why)
+        m = re.search(r'call \d+ \((?:fixture\d+\.)?(\w+)\(', why)
         return 'seq/' + (m.group(1) if m else ' '.join(why.split()[:3]))
     head = why.split(':')[0].split(' raised')[0].split('(')[0]
     return last['kind'] + '/' + ' '.join(w for w in head.split() if not w.isdigit())[:50]
@@ -1843,8 +2021,11 @@ def replay(ctx, payload):
                   '| override initially', None if c['init'] is None else repr(dt_of(c['init'])),
                   '| through TimeFixture' if c.get('fixture') else '')
         if c.get('fixtures'):
-            print('fixtures      :', ', '.join('fixture%d = TimeFixture(%r)' % (i, dt_of(t))
-                                                for i, t in enumerate(c['fixtures'])))
+            for i, e in enumerate(c['fixtures']):
+                t0, kind = fx_entry(e)
+                print('fixtures      : fixture%d = %s(%r)%s' % (
+                    i, 'TimeFixture' if kind == 'base' else 'Subclass_' + kind, dt_of(t0),
+                    '' if kind == 'base' else '   # subclass of TimeFixture, ' + FX_KINDS[kind]))
         if c.get('ptz'):
             print('process TZ    :', c['ptz'], '(os.environ["TZ"] + time.tzset() around the calls)')
         if c['kind'] != 'iso':
